@@ -48,4 +48,12 @@ theorem qf_clear_eq {N : Nat} (t : Quotient.St N) :
 theorem bloom_clear_eq (s : Bloom.St) : bloom_clear s.bits.toList = Flow.cont (Bloom.clear s).bits.toList := by
   simp [bloom_clear, Bloom.clear]
 
+theorem hll_is_empty_eq (s : Hll.St) : hll_is_empty s.regs.toList = Hll.isEmpty s := by
+  have h : (fun x : Nat => decide (x = 0)) = (fun x => x == 0) := by funext x; simp only [decide_eq_beq]
+  unfold hll_is_empty Hll.isEmpty
+  rw [h, Array.all_toList]
+
+theorem qf_is_empty_eq (n : Nat) : qf_is_empty n = (n == 0) := by simp only [qf_is_empty, decide_eq_beq]
+theorem qf_len_eq (n : Nat) : qf_len n = n := rfl
+
 end Pds.KernelTie
